@@ -30,7 +30,7 @@ Inductive tmode := MDefault | MImplicit | MExplicit.
 Inductive tagging := TgExplicit | TgImplicit | TgAutomatic.
 Inductive flag := FMandatory | FOptional | FDefault.
 Inductive kind := KSeq | KSet | KChoice.
-Inductive prim := PBool | PInt | PNull | POctets.
+Inductive prim := PBool | PInteger | PNull | POctets.
 
 Record mtag := { tg_class : tclass; tg_num : Z; tg_mode : tmode }.
 Record cinfo := { c_name : nat; c_tag : option mtag; c_flag : flag }.
@@ -136,7 +136,7 @@ Definition otag_eqb (a b : otag) : bool :=
 Definition universal_of (t : ty) : option Z :=
   match t with
   | TPrim PBool => Some 1
-  | TPrim PInt => Some 2
+  | TPrim PInteger => Some 2
   | TPrim POctets => Some 4
   | TPrim PNull => Some 5
   | TEnum _ => Some 10
